@@ -196,6 +196,50 @@ def run_mat2(ctx: Ctx, cases):
             ctx.disagree("mat2", case, f"fibre {f}: implementation != model (L={case['L']}, left={case['left']})")
 
 
+
+def check_plain(ctx: Ctx, case) -> bool:
+    """plain torch tensors (no LieTensor) through cumprod/cummul and their in-place variants:
+    `@` is the matrix product and `*` the element-wise product there — two different monoids, so a wrapper that
+    mixes them up is invisible on LieTensors (where both are the group product)"""
+    L, left, api = case["L"], case["left"], case["api"]
+    g = torch.Generator().manual_seed(case["data_seed"])
+    shape = tuple(case["shape_pre"]) + (L,) + tuple(case["shape_post"]) + (2, 2)
+    gens = torch.tensor([[[1, 1], [0, 1]], [[1, 0], [1, 1]], [[0, 1], [1, 0]], [[2, 0], [0, 1]]], dtype=torch.int64)
+    idx = torch.randint(0, 4, shape[:-2], generator=g)
+    x = gens[idx].to(getattr(torch, case["dtype"]))
+    dim = len(case["shape_pre"])
+    mat = "prod" in api
+    op = (lambda a, b: a @ b) if mat else (lambda a, b: a * b)
+    before = x.clone()
+    fn = getattr(pp(), api)
+    try:
+        xin = x.clone() if api.endswith("_") else x
+        y = fn(xin, dim, left=left)
+    except Exception as e:
+        ctx.fail(case, f"raises: {api} on a plain tensor raised {type(e).__name__}: {str(e)[:120]}")
+        return False
+    ok = True
+    if api.endswith("_"):
+        if not torch.equal(y, xin):
+            ctx.fail(case, f"in-place: {api} on a plain tensor does not overwrite its input with the result")
+            ok = False
+    elif not torch.equal(x, before):
+        ctx.fail(case, f"mutation: {api} on a plain tensor changed its input")
+        ok = False
+    want = seq_fold(before, dim, op, left)
+    if y.shape != want.shape or not torch.equal(y, want):
+        ctx.fail(case, f"fold: {api}(plain tensor, left={left}) != sequential fold with {'@' if mat else '*'} (L={L}, dim={dim})")
+        ok = False
+    return ok
+
+
+def run_plain(ctx: Ctx, cases):
+    for case in cases:
+        check_plain(ctx, case)
+        ctx.note_case(("plain", case["api"], case["L"], case["left"], len(case["shape_pre"]), case["dtype"]), case["L"] >= 2)
+        ctx.count(f"plain.{case['api']}")
+    ctx.sample({"stream": "plain", **cases[0]})
+
 # ----------------------------------------------------------------------------- lie stream
 
 def gen_lie(case):
@@ -373,6 +417,19 @@ def run(ctx: Ctx):
                       "shape_pre": pre, "shape_post": post, "api": rng.choice(["cumops", "cumops_"]),
                       "data_seed": rng.randrange(1 << 30), "negdim": rng.random() < 0.3, "view": rng.choice(VIEWS)})
     run_mat2(ctx, cases)
+    # plain tensors through every wrapper (deterministic corpus: every api x order x a few lengths/shapes/dtypes)
+    pcases = []
+    for api in ("cumprod", "cumprod_", "cummul", "cummul_"):
+        for left in (False, True):
+            for L in (1, 2, 3, 4, 7, 16, 33):
+                for pre, post, dtn in (([], [], "int64"), ([2], [], "float64"), ([], [3], "int64"), ([3], [2], "float32")):
+                    pcases.append({"kind": "plain", "api": api, "left": left, "L": L, "shape_pre": pre, "shape_post": post,
+                                   "dtype": dtn, "data_seed": 11 * L + len(pre)})
+    for _ in range(ctx.pick(40, 400)):
+        pcases.append({"kind": "plain", "api": rng.choice(["cumprod", "cumprod_", "cummul", "cummul_"]), "left": rng.random() < 0.5,
+                       "L": rng.randint(1, 40), "shape_pre": small_shape(rng, 2), "shape_post": small_shape(rng, 1),
+                       "dtype": rng.choice(["int64", "float64"]), "data_seed": rng.randrange(1 << 30)})
+    run_plain(ctx, pcases)
     # lie
     n = ctx.pick(160, 1200)
     corner = []
@@ -420,6 +477,8 @@ def replay(ctx: Ctx, case) -> bool:
         check_mat2(ctx, c)
     elif kind == "lie":
         check_lie(ctx, c)
+    elif kind == "plain":
+        check_plain(ctx, c)
     for f in ctx.failures[n0:]:
         print("  fails:", f["what"])
     for d in ctx.disagreements:
